@@ -44,6 +44,16 @@ def generate(rng, tier):
             else:
                 cfg["Qmin"], cfg["Qmax"] = edge, None
             d0["Qmin"] = d0["Qmax"] = None
+        if i % 6 == 4:             # the info dict of the first dataset (no Qmin / Qmax in it) is used again for data reaching further out
+            d0 = ds[0]
+            d0["Qmin"] = d0["Qmax"] = None
+            SL.finish_dataset(d0, cfg["mat"])
+            d2 = dict(d0, x=[round(v + 0.05 * (j + 1) + (max(d0["x"]) - min(d0["x"])) * 0.5, 2) for j, v in enumerate(sorted(d0["x"]))],
+                      style="exact", reuse_info_of=0)
+            d2["s_true"] = [1.0 + 0.1 * (-1) ** j for j in range(len(d2["x"]))]
+            d2["dy"] = None if d0["dy"] is None else [0.01] * len(d2["x"])
+            ds.append(SL.finish_dataset(d2, cfg["mat"]))
+            k = len(ds)
         if i % 5 == 2:             # an entry with a misspelt function name is rejected just before one of the datasets is added
             rng.choice(ds)["rejected_before"] = rng.choice(["F(Q)", "S(q)", "DCS", "FK(Q) "])
         if i % 4 == 2 and k > 1:   # the scattering lengths are changed between datasets
